@@ -1,7 +1,8 @@
 (* Instances.v — the refinement theorems instantiated at the regenerated
    tables (fold121 = CaseFold over coq/gen/Tables121.v, lower_pkg = the
    _lower table of each package): what the Properties files quote. *)
-From Strcase Require Import Base Utf8 Utf8Facts Spec SpecIndex Impl Impl2 Impl3 Refine_Compare Refine_Prefix Refine_Suffix Refine_Count
+From Strcase Require Import Base Utf8 Utf8Facts Spec SpecIndex Impl Impl2 Impl3 Impl4 Impl5 Refine_Compare Refine_Prefix Refine_Suffix Refine_Count
+  Refine_RuneCase Utf8Enc Refine_RuneCase2 Refine_Byte Refine_Rune FoldFacts2
   Fold FoldFacts FoldTables FoldFacts121.
 
 Theorem width_facts121 : width_facts fold121.
@@ -10,6 +11,42 @@ Proof.
   - intros a b Ha Hb La Lb E. apply width_ratio; assumption.
   - intros x Hx E. apply rune_error_alone; [apply int32_of_rune; exact Hx|exact E].
 Qed.
+
+(* the candidate sets of the model are those of the table facts *)
+Lemma cands_of_eq r : cands_of fold_map121 upper_lower121 r = cands121 r.
+Proof.
+  unfold cands_of, cands121, FoldFacts2.cands, fold_map121, upper_lower121.
+  destruct (fold_map T121 r) as [fs|]; reflexivity.
+Qed.
+
+Section Single.
+Variable native : bool.
+Variable cutover : Z -> Z.
+
+Theorem indexRuneCase121 s r : wf s -> indexRuneCase native cutover s r = Ok (rune_index s r).
+Proof. apply indexRuneCase_ok. Qed.
+
+Theorem indexbyte_refines121 s c :
+  wf s -> 0 <= c < 256 -> Impl5.IndexByte native cutover s c = Ok (index_byte s c).
+Proof. apply indexbyte_refines. Qed.
+
+Theorem indexrune_refines121 s r :
+  wf s -> Impl5.IndexRune native cutover fold_map121 upper_lower121 s r = Ok (index_rune fold121 s r).
+Proof.
+  apply (indexrune_refines native cutover fold121 fold_map121 upper_lower121).
+  - intros r0 x Hr Hx. rewrite cands_of_eq. apply cands_exact; assumption.
+  - intros r0 x Hr Hx. rewrite cands_of_eq in Hx. apply (cands_range r0 x Hr Hx).
+  - intros r0 x Hr Hx. apply ascii_cands_exact; assumption.
+  - intros x Hx. apply rune_error_alone. exact Hx.
+Qed.
+
+Theorem containsrune_refines121 s r :
+  wf s -> Impl5.ContainsRune native cutover fold_map121 upper_lower121 s r = Ok (contains_rune fold121 s r).
+Proof.
+  intros Hw. unfold Impl5.ContainsRune. rewrite indexrune_refines121 by exact Hw. reflexivity.
+Qed.
+
+End Single.
 
 Section Inst.
 Variable p : pkg.
